@@ -503,12 +503,35 @@ class Gen(object):
                     additions.append(m)
         return TSeq(members, ext=ext, additions=additions)
 
-    def twins(self):
+    def twins_spec(self):
+        """One module with same-named DEFAULT members of every kind in sibling inline SEQUENCEs (root of a
+        SEQUENCE and alternatives of a CHOICE); members vetoed by an open finding's region are left out."""
+        self._index = {}
+        ms = []
+        for kind in ('octets', 'enum', 'int', 'bool'):
+            tw = self.twins(kind)
+            for i, tm in enumerate(tw):
+                tm.name = '%s%s' % (tm.name, kind[0])
+            ms += tw
+        ok = lambda tm: not self.avoid(tm, 'member', self.spec_resolve) and not any(  # noqa: E731
+            self.avoid(x, 'type', self.spec_resolve) or (x.kind == 'seq' and any(self.avoid(m, 'member', self.spec_resolve)
+                                                                                  for m in x.members))
+            for x in subtypes(tm.ty))
+        ms = [tm for tm in ms if ok(tm)]
+        seq = TSeq([Member('first', TBool())] + ms)
+        if any(self.avoid(x, 'type', self.spec_resolve) for x in [seq]):
+            seq = TSeq([Member('first', TBool())] + [m for m in ms if self.spec_resolve(m.ty.members[-1].ty).kind != 'octets'])
+        cho = TChoice([(tm.name, tm.ty) for tm in ms] or [('only', TBool())])
+        if self.avoid(cho, 'type', self.spec_resolve):
+            cho = TChoice([('only', TBool())])
+        return Spec([('M', [('TwSeq', seq), ('TwCho', cho)])])
+
+    def twins(self, kind=None):
         """Two sibling inline SEQUENCEs whose members have the SAME name and type but DIFFERENT DEFAULTs
         (generators of per-member C constants / conditions must not confuse them)."""
         r = self.rng
         inner = r.choice(MEMBER_NAMES)
-        kind = r.choice(['octets', 'octets', 'enum', 'int', 'bool'])
+        kind = kind or r.choice(['octets', 'octets', 'enum', 'int', 'bool'])
         if kind == 'octets':
             lo, hi = r.choice([(0, 4), (0, 3), (1, 5), (2, 2), (0, 16)])
             mk = lambda: TOctets(lo, hi)  # noqa: E731
